@@ -87,6 +87,43 @@ theorem C17_rejected_when_tok_eq_chan (t : Table) (i : Inst) (h : i.tok = i.chan
       have : j.tok = i.tok := huniq j hj1 (by simpa using hk)
       simp [this] at hj2
 
+/-! ### channels in mode None
+
+  The property speaks of chunks "protected with that token's keys"; a mode-None
+  channel has no keys, so its statement does not apply there — but the code's
+  behaviour is worth stating: the token id a chunk carries is never looked at
+  (in any mode: `readChunk` decodes the symmetric security header and drops
+  it), and in mode None every chunk for a channel id with a stored instance is
+  accepted. -/
+
+/-- in mode None a chunk is accepted iff some instance is stored for the
+    channel id of its header — whatever token id it carries, whatever was
+    renewed or has expired in between (the verdict does not depend on the
+    chunk's second component at all) -/
+theorem C17_none_mode_accepts_every_token (t : Table) (evs : List Ev) (c k k' : Nat) (rest : List Ev) :
+    verdictsNone t (evs ++ .chunk c k :: rest) = verdictsNone t (evs ++ .chunk c k' :: rest) := by
+  induction evs generalizing t with
+  | nil => simp [verdictsNone]
+  | cons e r ih => cases e <;> simp [verdictsNone, ih]
+
+theorem C17_none_mode_accepted_iff (t : Table) (c : Nat) :
+    (∃ tok, verifyNone t c = .accepted tok) ↔ t.get c ≠ [] := by
+  unfold verifyNone
+  cases h : (t.get c).reverse with
+  | nil => simp [List.reverse_eq_nil_iff.mp h]
+  | cons i l =>
+    have : t.get c ≠ [] := by
+      intro h0; rw [h0] at h; cases h
+    simp [this]
+
+/-- so an instance that survives its expiry (token id ≠ channel id) keeps the
+    channel open for any chunk; and when token id = channel id and the expiry
+    removes the only instance, the channel accepts nothing any more -/
+theorem C17_none_mode_witness :
+    verdictsNone [] [.opn ⟨7, 1, 0⟩, .chunk 7 99, .opn ⟨7, 2, 0⟩, .expire ⟨7, 1, 0⟩, .chunk 7 1, .chunk 8 1,
+                     .opn ⟨5, 5, 0⟩, .expire ⟨5, 5, 0⟩, .chunk 5 5] =
+      [.accepted 1, .accepted 2, .noInstance, .noInstance] := by decide
+
 /-- non-vacuity: channel 5 whose first token is also numbered 5 — the first
     token does expire, the second (6 ≠ 5) never does -/
 example :
